@@ -244,6 +244,18 @@ class ModelKernel:
         """the k-th (0-based) request from now never reaches the kernel: the netlink socket raises OSError(errno)"""
         self.fail_plan[len(self.log) + k] = -errno
 
+    def recv_fail_next(self, k, errno):
+        """the k-th (0-based) request from now reaches the kernel and is carried out, but reading the answer fails: recv() on
+        the netlink socket raises OSError(errno) once (the answer stays queued on that socket)"""
+        self.recv_fail_plan = dict(getattr(self, 'recv_fail_plan', {}))
+        self.recv_fail_plan[len(self.log) + k] = errno
+
+    def take_recv_failure(self):
+        plan = getattr(self, 'recv_fail_plan', None)
+        if not plan:
+            return None
+        return plan.pop(len(self.log) - 1, None)
+
     def request(self, data, portid=None):
         idx = len(self.log)
         if self.fail_plan.get(idx, 0) < 0:
